@@ -1,9 +1,21 @@
-import MuscleModel.Wire.Ops
+import MuscleModel.Wire.Proofs2
 
 /-!
 # C01 — Message serialisation round-trips exactly and its size is exact
-(property theorems only; lemmas live in `Wire/Proofs*.lean`)
+
+Property theorems only (lemmas: `Wire/Proofs.lean`, `Wire/Proofs2.lean`).
+`encode`/`decode`/`sizeMsg` mirror `Message::Flatten/Unflatten/FlattenedSize`; the tie to the C++
+code is the correspondence run of engine `msg`.
+
+`tripMsg m` is `canon (flatPart m)`: the Message without its non-flattenable (pointer/tag) fields and
+with the inline/array representation tag reset to what the parser chooses.  By definition it keeps
+the what-code, the field order, names, type codes, item counts and every item's bytes at every
+nesting level.  `wfMsg` = constructible through the public API with all sizes below 2^32;
+`depthMsg m ≤ mx` = nesting within `MUSCLE_MAX_MESSAGE_NESTING_DEPTH` (a parameter: the theorems hold
+for every value of the limit).
 -/
+
+set_option linter.unusedSimpArgs false
 
 namespace Muscle.Props.C01
 open Muscle Muscle.Wire Muscle.Gen
@@ -21,5 +33,55 @@ theorem encInline_eq_encArray_raws (b : Bytes) : encRaws .inl [b] = encRaws .arr
 
 theorem encInline_eq_encArray_msgs (m : Msg) : encMsgsF .inl [m] = encMsgsF .arr [m] := by
   simp [encMsgsF, encMsgItems]
+
+/-- Parsing the serialised bytes yields the original Message (minus non-flattenable fields), for every
+    well-formed Message and every value `mx` of the nesting limit that admits it. -/
+theorem decode_encode (mx : Nat) (m : Msg) (h : wfMsg m) (hd : depthMsg m ≤ mx) :
+    decode mx (encode m) = some (tripMsg m) := by
+  have hn := nodes_msg m h
+  have := decMsg_enc mx m h ((encode m).length + 2) 1 [] (by simp only [encode]; omega) (by omega)
+  simp only [List.append_nil, encode] at this
+  simp only [decode, encode, this]
+
+/-- …and trailing bytes after a complete encoding do not change the result (streams, sub-buffers). -/
+theorem decode_encode_append (mx : Nat) (m : Msg) (rest : Bytes) (h : wfMsg m) (hd : depthMsg m ≤ mx) :
+    decode mx (encode m ++ rest) = some (tripMsg m) := by
+  have hn := nodes_msg m h
+  have := decMsg_enc mx m h ((encode m ++ rest).length + 2) 1 rest
+    (by simp only [encode, List.length_append]; omega) (by omega)
+  simp only [encode] at this
+  simp only [decode, encode, this]
+
+/-- Serialising the parsed Message reproduces the original bytes exactly. -/
+theorem reencode (m : Msg) (h : wfMsg m) : encode (tripMsg m) = encode m :=
+  reenc_msg m h
+
+/-- The advertised flattened size equals the number of bytes written. -/
+theorem size_exact (m : Msg) (h : wfMsg m) : (encode m).length = sizeMsg m :=
+  size_msg m h
+
+/-- Field order is preserved: the parsed Message lists exactly the flattenable fields, in order. -/
+theorem order_preserved (fs : List (Bytes × Field)) : (tripFields fs).map (·.1) = flatNames fs := by
+  induction fs with
+  | nil => simp [tripFields, flatNames]
+  | cons a r ih =>
+    obtain ⟨n, f⟩ := a
+    cases f <;> simp [tripFields, flatNames, ih]
+
+/-! Non-vacuity: a concrete Message with an inline int32, a two-item string array, a nested
+Message and a pointer field satisfies the hypotheses, and the statement computes. -/
+
+def sample : Msg :=
+  .mk 42 [ ([0x61], .fixed tcInt32 .inl [[1, 0, 0, 0]]),
+           ([0x62], .strs .arr [[0x68, 0x69], []]),
+           ([0x70], .opaque tcPointer 1),
+           ([0x63], .msgs .inl [.mk 7 [([0x64], .fixed tcBool .arr [[1]])]]) ]
+
+example : wfMsg sample ∧ depthMsg sample ≤ 256 := by
+  refine ⟨?_, ?_⟩
+  · simp [sample, wfMsg, wfFields, wfMsgs, countFlat, nulFree, flatNames, U32, wireItemSize, tcInt32, tcBool,
+      tcDouble, tcFloat, tcInt64, tcInt16, tcInt8, tcPoint, tcRect, normBool, encStrs, encStrItems, encMsgItems,
+      encMsg, encFields, encFixed, encFixedArr, le32, leN, protocolVersion]
+  · simp [sample, depthMsg, depthFields, depthMsgs]
 
 end Muscle.Props.C01
